@@ -400,6 +400,9 @@ Proof.
               sem_tree env x = sem_tree env t ∧ columns x = columns t ∧ wf_tree x ∧ env_ok env x ∧ engine_of x = dest ∧
               (ekind_of dest = KSql → good_all env x ∨ ∃ c, x = Xfer dest c)).
   { intros x Hg. unfold transfer_generic in Hg.
+    destruct (engine_eqb (engine_of t) dest) eqn:Ee0.
+    { injection Hg as <-. apply engine_eqb_eq in Ee0. repeat split; auto.
+      intros Hk. left. unfold tree_ok in Hok. rewrite Ee0, Hk in Hok. exact Hok. }
     destruct (xfer_simplify dest t) as [y|] eqn:Es; cbn [default from_option id] in Hg.
     - destruct (xfer_simplify_basic env dest t y Es Hwf Henv) as (Y1 & Y2 & Y3 & Y4 & Y5).
       rewrite Y5, engine_eqb_refl in Hg. injection Hg as <-. repeat split; auto.
